@@ -89,6 +89,19 @@ var caseTimeout = 10 * time.Second
 // observed. An instance that died between two cases is replaced before the next one starts.
 var busDeathsSeen int64
 
+// caseRetry is set when a request of the harness, or a catch-up pass it started, ended in a TIME-OUT (client.SendNodePoints
+// waits one second for its acknowledgement; on a machine busy with other work a store write can take longer). Such a case is
+// run again on fresh instances like one whose instance ended by itself; a time-out that repeats — a request the code under
+// test does not answer — is reported as observed.
+var caseRetry int32
+
+func noteTmo(err error) error {
+	if err != nil && strings.Contains(err.Error(), "timeout") {
+		atomic.StoreInt32(&caseRetry, 1)
+	}
+	return err
+}
+
 func runCase(p *Prop, c string) string {
 	restart := func() {
 		if p.Done != nil {
@@ -104,11 +117,17 @@ func runCase(p *Prop, c string) string {
 			fmt.Fprintln(os.Stderr, "an instance ended by itself: instances started afresh")
 			restart()
 		}
+		atomic.StoreInt32(&caseRetry, 0)
 		obs := safeRun(p, c)
-		if atomic.LoadInt64(&busDeaths) == busDeathsSeen || attempt >= 2 {
+		if (atomic.LoadInt64(&busDeaths) == busDeathsSeen && atomic.LoadInt32(&caseRetry) == 0) || attempt >= 2 {
 			return obs
 		}
-		fmt.Fprintln(os.Stderr, "an instance ended by itself while a case was running: the case is run again")
+		if atomic.LoadInt64(&busDeaths) != busDeathsSeen {
+			fmt.Fprintln(os.Stderr, "an instance ended by itself while a case was running: the case is run again")
+		} else {
+			fmt.Fprintln(os.Stderr, "a request timed out while a case was running: the case is run again on fresh instances")
+			restart()
+		}
 	}
 }
 
